@@ -169,3 +169,14 @@ _p('C08', ['r_nondet', 'r_restore', 'r_emitorder'],
    'through a shared reference, so emitting alters nothing; emit steps form one fixed order.',
    not_decided='byte equality after an extra parse/emit round trip (needs canonical-form reasoning about wasm-encoder and the '
                'parser; not claimed); determinism of wasm-encoder itself')
+PROPERTIES['C04']['rules'] = ['r_flow', 'r_segments']
+
+_p('C01', ['r_table', 'r_control', 'r_flow', 'r_segments', 'r_emitorder'],
+   'The four mechanisms the property names are decided structurally: (1) every cross reference is an arena id that is turned '
+   'back into an index of the same index space (R-TABLE for operands, R-FLOW/R-FLOW-SEG for module-level records, segments, '
+   'initialisers, start), with index spaces assigned before use in one fixed section order (R-EMITORDER); (2) branch labels '
+   'and block signatures survive through the control-stack / block-stack correspondence (R-CONTROL); (3) function bodies and '
+   'function indices follow the same ordering function; (4) only nop and syntactically dead code is elided (R-TABLE: exactly '
+   'one IR node per operator except nop; R-CONTROL: br/br_table mark the rest unreachable, br_if does not).',
+   not_decided='execution equivalence itself (results, traps, state are runtime values); this check decides the structural '
+               'necessary conditions listed, not the behaviour')
